@@ -21,6 +21,7 @@ PARTIAL = [
     "lookup's permutation invariance, 'phi enters only through phi*M', and pointwise independence of the bulk update in the model",
 ]
 ASSUMPTIONS = ["bitwise reproducibility of LSODA/LAPACK for identical inputs on the same machine"]
+JIT_TWIN = ('update',)   # groups of harness/jittwin.py: the numba-compiled code is run on the same battery and compared
 TRUSTED = ["harness/solver.py scenario driver"]
 
 
